@@ -116,4 +116,5 @@ if __name__ == "__main__":
         "what it sees must equal the values after the call",
         keep=lambda w: w.startswith("callback") or w.startswith("used_rand") or w.startswith("instantiation") or w.startswith("world")
         or w.startswith("post_randomize") or w.startswith("randset") or w.startswith("nonrandom-field-changed")
-        or w.startswith("hard-constraint-violated"), extra_run=list_views_in_post))
+        or w.startswith("hard-constraint-violated") or w.startswith("list-views") or w.startswith("pre_randomize"),
+        extra_run=list_views_in_post))
